@@ -240,3 +240,28 @@ func VerifC03FailureZones(name string) []string {
 	})
 	return out
 }
+
+// VerifC03FailureTag relabels (provenance only) every failure state whose
+// provenance is `from`: the harness gives a failure recorded by the real
+// write-back path its own id. No lookup reads the provenance.
+func VerifC03FailureTag(c *Cache, from, to string) {
+	c.failure.entries.ForEach(func(_ uint64, v any) bool {
+		if e, ok := v.(*failureEntry); ok && e != nil && string(e.provenance) == from {
+			e.provenance = FailureProvenance(to)
+		}
+		return true
+	})
+}
+
+// VerifC03FailureIdent reads the identity a failure state was filed under.
+func VerifC03FailureIdent(c *Cache, hash uint64) (FailureQuestionKey, bool) {
+	v, ok := c.failure.entries.Get(hash)
+	if !ok {
+		return FailureQuestionKey{}, false
+	}
+	e, ok := v.(*failureEntry)
+	if !ok || e == nil || e.kind != FailureKindQuestion {
+		return FailureQuestionKey{}, false
+	}
+	return e.question, true
+}
